@@ -401,7 +401,22 @@ func Core() []CoreCase {
 
 // Huge returns a packet whose frame needs a four-byte remaining length.
 func HugePacket(r *RNG, dom Domain) *ref.Packet {
-	switch r.Intn(3) {
+	switch r.Intn(5) {
+	case 3, 4: // a PUBLISH whose remaining length is exactly a round number (chunked readers stumble there)
+		rem := Pick(r, 65535, 65536, 65537, 131072, 196608, 262144, 327680, 524288, 1048576, 2097152, 4194304, 16384, 16383)
+		p := Packet(r, ref.TPublish, 1<<3, Small, dom)
+		p.Topic = "t"
+		p.Props = nil
+		if r.Bool() && rem > 70 {
+			p.Props = []ref.Prop{{ID: 0x26, S: "k", V: UTF8(r, 60)}}
+		}
+		// remaining = 2+1 (topic) + property length field + properties + payload
+		used := 3 + 1
+		if len(p.Props) > 0 {
+			used = 3 + 1 + (1 + 2 + 1 + 2 + 60)
+		}
+		p.Payload = r.Bytes(rem - used)
+		return p
 	case 0: // PUBLISH with a multi-megabyte payload
 		p := Packet(r, ref.TPublish, RandomMask(r, ref.TPublish)|1<<3, Small, dom)
 		p.Payload = r.Bytes(Pick(r, 2097152, 2097151, 2097150, 2097149, 2097153, 3000000, 4194304) - r.Intn(8))
